@@ -486,3 +486,32 @@ def failclosed_oracle(n_quick=120, n_thorough=2500):
     return Oracle(name='failclosed', gen=gen, check=_failclosed_check, nontrivial=nontrivial, corpus=corpus,
                   classify=lambda c: 'must_fail' if c.get('must_fail') else ('garbled' if c.get('garble') is not None else 'valid'),
                   timeout=300)
+
+
+# ------------------------------------------------------------------------------------------------ C14 slow operands
+def slow_operand_oracle(n_quick=60, n_thorough=800):
+    """operand texts aimed at every operand kind of generated ISAs, with their numbers replaced by very long literals and
+    left-over text appended: whatever the assembler makes of them, it must answer within the time limit and fail closed"""
+    import re as _re
+    from . import sysisa
+
+    LONG = ['%' + '1' * 30, '1234567890' * 3, '$' + 'f' * 28, 'b' + '10' * 16, 'lbl_' + 'x' * 40]
+
+    def gen(rng, tier):
+        out = []
+        for _ in range(n_quick if tier == 'quick' else n_thorough):
+            c = sysisa.gen_isa_case(rng, {'p_macros': 0.3}, 'quick')
+            for st in c['files'][0]['stmts']:
+                if st[0] != 'asm':
+                    continue
+                for o in st[2]:
+                    t = _re.sub(r'[$%]?[0-9a-fA-F]*\d[0-9a-fA-F]*', lambda m: rng.choice(LONG) if rng.random() < 0.7 else m.group(0), o[0])
+                    if rng.random() < 0.7:
+                        t += rng.choice(['!', ' @', ' ' * 30 + '?', ' ' + rng.choice(LONG), ' 1 2 3 4 5 6 7 8 9 !'])
+                    o[0] = t
+            c['preseed'] = rng.random() < 0.5
+            c['limit'] = 30
+            out.append(c)
+        return out
+    return Oracle(name='slow_operands', gen=gen, check=_failclosed_check, nontrivial=lambda c: True,
+                  classify=lambda c: 'macros' if c['isa']['macros'] else 'instrs', timeout=300)
